@@ -37,7 +37,7 @@ func main() {
 	kit.Main("C28", "model_checking", func(c *kit.Ctx) {
 		scs := scenarios(c.Thorough())
 		mk := func(p poolh.Params) sx.Scenario[poolh.Params] {
-			return sx.Scenario[poolh.Params]{Name: "pool", Params: p, MaxSteps: 6000,
+			return sx.Scenario[poolh.Params]{Name: "pool", Params: p, MaxSteps: 6000, KeepChanLog: true,
 				Body:  func(p poolh.Params, o *sx.Obs) { poolh.Body(p, o, dump) },
 				Check: poolh.CheckC28}
 		}
